@@ -414,7 +414,7 @@ func (m *machine) LowerConditionalBranch(b *ssa.Instruction) {
 
 		// First, perform the comparison and set the flag.
 		xd, yd := m.c.ValueDefinition(x), m.c.ValueDefinition(y)
-		if !m.tryLowerBandToFlag(xd, yd) {
+		if !m.tryLowerBandToFlag(xd, yd, c) {
 			m.lowerIcmpToFlag(xd, yd, x.Type() == ssa.TypeI64)
 		}
 
@@ -1594,7 +1594,7 @@ func (m *machine) lowerExitIfTrueWithCode(execCtx regalloc.VReg, cond ssa.Value,
 
 	x, y, c := cvalInstr.IcmpData()
 	xx, yy := m.c.ValueDefinition(x), m.c.ValueDefinition(y)
-	if !m.tryLowerBandToFlag(xx, yy) {
+	if !m.tryLowerBandToFlag(xx, yy, c) {
 		m.lowerIcmpToFlag(xx, yy, x.Type() == ssa.TypeI64)
 	}
 
@@ -1604,10 +1604,13 @@ func (m *machine) lowerExitIfTrueWithCode(execCtx regalloc.VReg, cond ssa.Value,
 	jmpIf.asJmpIf(condFromSSAIntCmpCond(c).invert(), newOperandLabel(l))
 }
 
-func (m *machine) tryLowerBandToFlag(x, y backend.SSAValueDefinition) (ok bool) {
+func (m *machine) tryLowerBandToFlag(x, y backend.SSAValueDefinition, c ssa.IntegerCmpCond) (ok bool) {
 	var target backend.SSAValueDefinition
 	var got bool
-	if x.IsFromInstr() && x.Instr.Constant() && x.Instr.ConstantVal() == 0 {
+	// TEST sets the flags of "band cmp 0": with the zero on the left the operands are swapped,
+	// which is only transparent to the symmetric conditions.
+	symmetric := c == ssa.IntegerCmpCondEqual || c == ssa.IntegerCmpCondNotEqual
+	if symmetric && x.IsFromInstr() && x.Instr.Constant() && x.Instr.ConstantVal() == 0 {
 		if m.c.MatchInstr(y, ssa.OpcodeBand) {
 			target = y
 			got = true
